@@ -530,6 +530,38 @@ mut('c09-empty-list-hangs', ['C09'], CL,
 mut('ok-c09-snapshot-tuple', ['C09'], CL,
     [("            for cb in list(self._dcCallbacks):", "            for cb in tuple(self._dcCallbacks):")], kind='benign')
 
+mut('c16-intro-no-dedup', ['C16'], IN,
+    [("            if path and path not in matches:\n                matches.append(path)", "            if path:\n                matches.append(path)")], ['C16.D4'])
+mut('ok-c16-intro-set-comprehension', ['C16'], IN,
+    [("    matches = []\n    for path in exportedObjects.keys():\n        if path.startswith(objectPath):\n            path = path[len(objectPath):].partition('/')[0]\n            # the root path '/' is its own prefix: no child there\n            if path and path not in matches:\n                matches.append(path)\n",
+      "    matches = sorted({p[len(objectPath):].partition('/')[0]\n                      for p in exportedObjects\n                      if p.startswith(objectPath) and p != objectPath})\n")], kind='benign',
+    note='equivalent rewrite with a set comprehension (child values not extractable: advisory only)')
+
+# ---- C15 ------------------------------------------------------------------
+IF = 'txdbus/interface.py'
+mut('c15-arg-no-direction', ['C15'], IF,
+    [("                        '      <arg direction=\"out\" type=\"%s\"/>' %", "                        '      <arg type=\"%s\"/>' %")], ['C15.D1'])
+mut('c15-direction-swapped-writer', ['C15'], IF,
+    [("                for arg_sig in marshal.genCompleteTypes(m.sigIn):\n                    l.append(\n                        '      <arg direction=\"in\" type=\"%s\"/>' %",
+      "                for arg_sig in marshal.genCompleteTypes(m.sigOut):\n                    l.append(\n                        '      <arg direction=\"in\" type=\"%s\"/>' %")], ['C15.D3'])
+mut('c15-reader-counts-wrong', ['C15'], IN,
+    [("                self.member.nret += 1\n                self.member.sigOut = self.member.sigOut + t", "                self.member.nargs += 1\n                self.member.sigOut = self.member.sigOut + t")], ['C15.D3'])
+mut('c15-reader-direction-out-as-in', ['C15'], IN,
+    [("            if attrs['direction'] == 'in':", "            if attrs['direction'] != 'out':")], [], kind='benign',
+    note='equivalent on the vocabulary {in, out}')
+mut('c15-reuse-polarity', ['C15'], IN,
+    [("        self.skipKnown = not replaceKnownInterfaces", "        self.skipKnown = replaceKnownInterfaces")], ['C15.D4'])
+mut('c15-reuse-always', ['C15'], IN,
+    [("        if iname in interface.DBusInterface.knownInterfaces and self.skipKnown:", "        if iname in interface.DBusInterface.knownInterfaces:")], ['C15.D4'])
+mut('c15-property-access-upper', ['C15'], IN,
+    [("        readable = rw.lower() in ('read', 'readwrite')", "        readable = rw in ('Read', 'ReadWrite')")], ['C15.D2'])
+mut('c15-signal-arg-by-char', ['C15'], IF,
+    [("                for arg_sig in marshal.genCompleteTypes(s.sig):", "                for arg_sig in s.sig:")], ['C15.D3'],
+    note='one <arg> per character instead of per complete type')
+mut('c15-property-no-type', ['C15'], IF,
+    [("                    '    <property name=\"%s\" type=\"%s\" access=\"%s\">' %\n                    (p.name, p.sig, p.access,))",
+      "                    '    <property name=\"%s\" access=\"%s\">' %\n                    (p.name, p.access,))")], ['C15.D1'])
+
 # benign variants --------------------------------------------------------------
 mut('ok-int16-condexpr', ['C01', 'C02'], M,
     [("return 2, [struct.pack(lendian and '<h' or '>h', var)]",
